@@ -35,7 +35,10 @@ Inductive adv := AdvNone | AdvGood | AdvNameOnly | AdvBadSize | AdvOther.
 (* how a batch is sent when the client owns a segment: inline, as a pointer to a
    slot it allocates (inline when it does not fit), as a pointer to nowhere *)
 Inductive wish := WInline | WPtr | WBad.
-Inductive act := AEmit | AFinish | AErr.
+(* how a turn fails: the state returns an error / panics / emits nothing (output
+   validation fails) / emits twice (the second Emit is refused) *)
+Inductive errkind := EScript | EPanic | ENoEmit | EEmit2.
+Inductive act := AEmit | AFinish | AErr (k : errkind).
 Record turn := { t_rows : N; t_value : Z; t_act : act }.
 Record script := {
   sc_fail : bool;                  (* unary handler / stream init fails *)
@@ -66,6 +69,7 @@ Inductive wframe :=
 
 Definition exc_io_error : bytes := str "IOError".
 Definition exc_value_error : bytes := str "ValueError".
+Definition err_exc (k : errkind) : bytes := match k with EScript => exc_value_error | _ => exc_runtime_error end.
 
 (* the client's view of a frame: pointers resolved *)
 Definition view_frame (f : wframe) : wframe :=
@@ -161,7 +165,7 @@ Fixpoint lockstep (refuse : bool) (g : cfg) (exchange engaged : bool) (turns : l
           let insum := if exchange then (Z.of_N rows' * val)%Z else 0%Z in
           let t := match turns with [] => default_turn exchange | t :: _ => t end in
           match t_act t with
-          | AErr => ([WExc exc_value_error], st1, leak)
+          | AErr k => ([WExc (err_exc k)], st1, leak)
           | AFinish => if exchange then ([WExc exc_runtime_error], st1, leak) else ([], st1, leak)
           | AEmit =>
               let v := (t_value t + insum)%Z in
@@ -423,6 +427,54 @@ Fixpoint all_consumed (att : bool) (cs : list call) (ws : list cobs) : bool :=
   | _, _ => true
   end.
 
+(* ---------- the allocation table, call by call ------------------------------------
+   Judged from the input and the client's own observations only. The client knows which
+   of its slots the server was obliged to consume: the slot of a pointer request that was
+   not refused, and the slot of every exchange input the lockstep loop got to - one input
+   per answer it wrote, plus the input whose turn ended the stream with an error of the
+   user code (an IOError means the pointer itself was refused, unresolved). Whatever the
+   turn then does - answers, fails, panics, emits nothing, emits twice - the slot is gone. *)
+Fixpoint processed (fs : list wframe) : nat :=
+  match fs with
+  | WData _ _ _ :: r => S (processed r)
+  | WExc ty :: _ => if beqb ty exc_io_error then O else 1%nat
+  | _ => O
+  end.
+Definition count_true (l : list bool) : nat := length (filter (fun x => x) l).
+(* inputs that went out as pointers to slots the client really allocated *)
+Fixpoint real_slots (its : list item) (flags : list bool) : list bool :=
+  match its, flags with
+  | it :: r, f :: fr => (f && match it_wish it with WBad => false | _ => true end) :: real_slots r fr
+  | _, _ => []
+  end.
+(* client slots of this call that the server had no business freeing *)
+Definition unconsumed (seg_now : bool) (c : call) (w : cobs) : nat :=
+  let slots := real_slots (c_items c) (b_items_ptr w) in
+  let wbad := match c_wish c with WBad => true | _ => false end in
+  if b_req_ptr w && (negb seg_now || wbad) then ((if wbad then 0 else 1) + count_true slots)%nat
+  else match c_method c with
+       | MExch => if sc_fail (c_script c) then count_true slots
+                  else match b_resp w with
+                       | [fs] => count_true (skipn (processed fs) slots)
+                       | _ => count_true slots
+                       end
+       | _ => count_true slots
+       end.
+
+(* after every call the table holds exactly the client slots left unconsumed so far plus
+   the pointers whose release the client deferred; after the final release exactly the
+   unconsumed client slots: none when every turn consumed its input, however it ended *)
+Fixpoint tables_ok (att : bool) (own deferred : nat) (cs : list call) (ws : list cobs) (after_len : nat) : bool :=
+  match cs, ws with
+  | [], [] => Nat.eqb after_len own
+  | c :: cs', w :: ws' =>
+      let '(seg_now, att') := ensure att (c_adv c) in
+      let own' := (own + unconsumed seg_now c w)%nat in
+      let deferred' := if c_release_now c then deferred else (deferred + length (ptr_offs (concat (b_resp w))))%nat in
+      Nat.eqb (length (b_tab w)) (own' + deferred') && tables_ok att' own' deferred' cs' ws' after_len
+  | _, _ => false
+  end.
+
 Definition spec_ok (i : input) (o : obs) : bool :=
   negb (o_escaped o)
   && calls_ok false (i_calls i) (o_with o) (o_without o)
@@ -431,4 +483,6 @@ Definition spec_ok (i : input) (o : obs) : bool :=
      or only request pointers that the server resolved *)
   && forallb (fun e => existsb (N.eqb (fst e)) (o_own o)) (o_after o)
   && (sent_any (o_with o) || match o_after o with [] => true | _ => false end)
-  && (negb (all_consumed false (i_calls i) (o_with o)) || match o_after o with [] => true | _ => false end).
+  && (negb (all_consumed false (i_calls i) (o_with o)) || match o_after o with [] => true | _ => false end)
+  (* exact count, after every call and at the end of the session *)
+  && tables_ok false 0 0 (i_calls i) (o_with o) (length (o_after o)).
